@@ -179,3 +179,33 @@ pub fn random(rng: &mut Rng, depth: usize) -> RTy {
         }
     }
 }
+
+/// random type whose named leaves come from `names`
+pub fn random_named(rng: &mut Rng, depth: usize, names: &[&str]) -> RTy {
+    let t = random(rng, depth);
+    fn walk(t: RTy, rng: &mut Rng, names: &[&str]) -> RTy {
+        let mut b = |x: Box<RTy>, rng: &mut Rng| Box::new(walk(*x, rng, names));
+        match t {
+            RTy::Named(_) => RTy::Named(rng.pick(names).to_string()),
+            RTy::Prim(p) => {
+                if rng.chance(1, 3) {
+                    RTy::Named(rng.pick(names).to_string())
+                } else {
+                    RTy::Prim(p)
+                }
+            }
+            RTy::Unit => RTy::Unit,
+            RTy::Opt(x) => RTy::Opt(b(x, rng)),
+            RTy::Vec(x) => RTy::Vec(b(x, rng)),
+            RTy::HSet(x) => RTy::HSet(b(x, rng)),
+            RTy::BSet(x) => RTy::BSet(b(x, rng)),
+            RTy::Res1(x) => RTy::Res1(b(x, rng)),
+            RTy::Ref(x) => RTy::Ref(b(x, rng)),
+            RTy::HMap(x, y) => { let x2 = b(x, rng); RTy::HMap(x2, b(y, rng)) }
+            RTy::BMap(x, y) => { let x2 = b(x, rng); RTy::BMap(x2, b(y, rng)) }
+            RTy::Res2(x, y) => { let x2 = b(x, rng); RTy::Res2(x2, b(y, rng)) }
+            RTy::Tup(ts) => RTy::Tup(ts.into_iter().map(|x| walk(x, rng, names)).collect()),
+        }
+    }
+    walk(t, rng, names)
+}
